@@ -614,3 +614,143 @@ CONTROLS['C08'] = [
       "        context.session.query(RPA_model).filter(\n"
       "            RPA_model.resource_provider_id == _id).delete()\n"),
 ]
+
+
+def reuse(prop, cid, new_id, expect, **kw):
+    for c in CONTROLS[prop]:
+        if c['id'] == cid:
+            d = dict(c)
+            d['id'] = new_id
+            if expect is None:
+                d['benign'] = True
+                d.pop('expect', None)
+            else:
+                d['expect'] = expect
+                d.pop('benign', None)
+            d.update(kw)
+            return d
+    raise KeyError(cid)
+
+
+CONTROLS['C18'] = [
+    reuse('C04', 'c04-unscope-put-closure', 'c18-unscope-put-closure', 'R18b'),
+    reuse('C04', 'c04-unscope-reshape-both', 'c18-unscope-reshape-both', 'R18b'),
+    reuse('C04', 'c04-raw-write-in-handler', 'c18-raw-write-in-handler', 'R18a'),
+    reuse('C04', 'c04-two-transactions', 'c18-two-transactions', 'R18b'),
+    reuse('C04', 'c04-benign-unscope-inner-reshape', 'c18-benign-unscope-inner', None),
+    reuse('C06', 'c06-reintroduce-F3', 'c18-consumer-update-outside-main-tx', 'R18b'),
+    M('c18-set-inventory-unscoped', RP,
+      "@db_api.placement_context_manager.writer\ndef _set_inventory(context, rp, inv_list):",
+      "def _set_inventory(context, rp, inv_list):", 'R18'),
+    M('c18-update-in-db-unscoped', RP,
+      "    @db_api.placement_context_manager.writer\n    def _update_in_db(self, context, id, updates, allow_reparenting):",
+      "    def _update_in_db(self, context, id, updates, allow_reparenting):",
+      'R18'),
+    M('c18-aux-root-writes-core', HU,
+      "        cons_type = consumer_type_obj.ConsumerType(ctx, name=name)\n",
+      "        cons_type = consumer_type_obj.ConsumerType(ctx, name=name)\n"
+      "        from placement.objects import trait as _t\n"
+      "        _t.Trait(ctx, name='CUSTOM_' + name).create()\n", 'R18b'),
+    M('c18-update-consumers-before-closure', H + 'reshaper.py',
+      "    def _create_allocations():\n        try:\n",
+      "    def _create_allocations():\n        data_util.update_consumers(consumers.values(), requested_attrs)\n        try:\n",
+      'R18b'),
+]
+
+CONTROLS['C07'] = [
+    reuse('C01', 'c01-check-before-delete', 'c07-check-before-delete', 'R7.1'),
+    reuse('C01', 'c01-check-positive-only', 'c07-check-other-list', 'R7.1'),
+    reuse('C10', 'c10-skip-provider-loop', 'c07-skip-provider-cas', 'R7.2'),
+    reuse('C10', 'c10-continue-before-visit', 'c07-consumer-cas-incomplete', 'R7.2'),
+    reuse('C10', 'c10-provider-map-after-skip', 'c07-provider-map-incomplete', 'R7.2'),
+    reuse('C04', 'c04-drop-cleanup-post', 'c07-drop-cleanup', 'R7.3'),
+    reuse('C01', 'c01-swallow-in-replace-all', 'c07-absorb-rejection', 'R7.'),
+    M('c07-retry-catches-all-conflicts', OA,
+      "        except exception.ResourceProviderConcurrentUpdateDetected:\n            LOG.debug('Retrying",
+      "        except exception.ConcurrentUpdateDetected:\n            LOG.debug('Retrying",
+      'R7.4'),
+    M('c07-unbounded-retry', OA,
+      "    while retries:\n        retries -= 1\n", "    while retries:\n", 'R7.4'),
+    M('c07-exhaustion-silent', OA,
+      "                    context.config.placement.allocation_conflict_retry_count)\n"
+      "        raise exception.ResourceProviderConcurrentUpdateDetected()",
+      "                    context.config.placement.allocation_conflict_retry_count)",
+      'R7.4'),
+    M('c07-cas-failure-ignored', OA,
+      "    for rp in visited_rps.values():\n        rp.increment_generation()\n",
+      "    for rp in visited_rps.values():\n        try:\n            rp.increment_generation()\n"
+      "        except exception.ConcurrentUpdateDetected:\n            LOG.debug('raced')\n",
+      'R7.'),
+    reuse('C10', 'c10-drop-incr-delete-inventory', 'c07-inventory-change-no-cas', 'R7.5'),
+    reuse('C10', 'c10-benign-rename', 'c07-benign-rename', None),
+]
+
+CONTROLS['C12'] = [
+    M('c12-no-cleanup-in-write', OA,
+      "    consumer_obj.delete_consumers_if_no_allocations(\n        context, consumers_to_check)\n",
+      "", 'R12.2'),
+    M('c12-cleanup-conditional', OA,
+      "    consumer_obj.delete_consumers_if_no_allocations(\n        context, consumers_to_check)\n",
+      "    if len(allocs) > 1:\n        consumer_obj.delete_consumers_if_no_allocations(\n            context, consumers_to_check)\n",
+      'R12.2'),
+    M('c12-no-cleanup-in-delete', OA,
+      "    _delete_allocations_by_ids(context, alloc_ids)\n    consumer_obj.delete_consumers_if_no_allocations(\n        context, consumer_uuids)\n",
+      "    _delete_allocations_by_ids(context, alloc_ids)\n", 'R12.2'),
+    M('c12-positive-filter-weakened', OA,
+      "    cons_with_allocs = set(a.consumer.uuid for a in allocs if a.used > 0)",
+      "    cons_with_allocs = set(a.consumer.uuid for a in allocs if a.used >= 0)",
+      'R12.2'),
+    M('c12-placeholder-user-from-project', HU,
+      "        user_id = ctx.config.placement.incomplete_consumer_user_id",
+      "        user_id = ctx.config.placement.incomplete_consumer_project_id",
+      'R12.5'),
+    M('c12-placeholder-after-lookup', HU,
+      "    if project_id is None:\n        project_id = ctx.config.placement.incomplete_consumer_project_id\n"
+      "        user_id = ctx.config.placement.incomplete_consumer_user_id\n"
+      "    proj = _get_or_create_project(ctx, project_id)\n",
+      "    proj = _get_or_create_project(ctx, project_id)\n"
+      "    if project_id is None:\n        project_id = ctx.config.placement.incomplete_consumer_project_id\n"
+      "        user_id = ctx.config.placement.incomplete_consumer_user_id\n",
+      'R12.5'),
+    M('c12-reintroduce-F4-put', HA,
+      "        if created_new_consumer:\n"
+      "            # A consumer auto-created for a request that carried no\n"
+      "            # allocations holds nothing: do not keep its record.\n"
+      "            consumer_obj.delete_consumers_if_no_allocations(\n"
+      "                ctx, [consumer_uuid])\n", "", 'R12.4'),
+    M('c12-reintroduce-F4-reshaper', H + 'reshaper.py',
+      "        consumer_obj.delete_consumers_if_no_allocations(\n"
+      "            ctx, [consumer.uuid for consumer in new_consumers_created])\n",
+      "", 'R12.4'),
+    M('c12-F4-cleanup-before-write', HA,
+      "        alloc_obj.replace_all(ctx, allocations)\n"
+      "        # A consumer auto-created for an entry that carried no allocations\n"
+      "        # holds nothing: do not keep its record.\n"
+      "        consumer_obj.delete_consumers_if_no_allocations(\n"
+      "            ctx, [consumer.uuid for consumer in new_consumers_created])\n",
+      "        consumer_obj.delete_consumers_if_no_allocations(\n"
+      "            ctx, [consumer.uuid for consumer in new_consumers_created])\n"
+      "        alloc_obj.replace_all(ctx, allocations)\n", 'R12.4'),
+    M('c12-second-creator', HU,
+      "            consumer.project = project\n            consumer.user = user\n            consumer.update()\n",
+      "            consumer.project = project\n            consumer.user = user\n            consumer.create()\n",
+      'R12.1'),
+    M('c12-update-outside-closure', HA,
+      "    def _create_allocations():\n        try:\n"
+      "            # NOTE(melwitt): Group the consumer and allocation database updates\n"
+      "            # in a single transaction so that updates get rolled back\n"
+      "            # automatically in the event of a consumer generation conflict.\n"
+      "            _update_consumers_and_create_allocations(context)\n"
+      "        except Exception:\n            with excutils.save_and_reraise_exception():\n"
+      "                delete_consumers(new_consumers_created)",
+      "    def _create_allocations():\n        try:\n"
+      "            data_util.update_consumers(consumers.values(), requested_attrs)\n"
+      "            _update_consumers_and_create_allocations(context)\n"
+      "        except Exception:\n            with excutils.save_and_reraise_exception():\n"
+      "                delete_consumers(new_consumers_created)", 'R12.5'),
+    M('c12-type-gate-moved', HU,
+      "    requires_consumer_type = want_version.matches((1, 38))",
+      "    requires_consumer_type = want_version.matches((1, 37))", 'R12.5'),
+    reuse('C04', 'c04-drop-cleanup-post', 'c12-drop-failure-cleanup', 'R12.3'),
+    reuse('C04', 'c04-benign-rename-closure', 'c12-benign-rename-closure', None),
+]
